@@ -466,7 +466,19 @@ fn gen_ops(rng: &mut Rng, len: usize) -> Vec<Op> {
                     ops.push(Op::Cmd(vec![b(name), k, b("0"), b("COUNT"), b("100000")], Path::Generic))
                 }
             }
-            14 => ops.push(Op::Cmd(vec![b("DBSIZE")], Path::Generic)),
+            14 => {
+                if rng.gen_bool(0.5) {
+                    ops.push(Op::Cmd(vec![b("DBSIZE")], Path::Generic))
+                } else {
+                    // commands without a routing key that read or write server-wide state: they must all meet the same state
+                    let param = gen::pick(rng, &["maxmemory-policy", "maxmemory", "appendonly"]);
+                    if rng.gen_bool(0.5) {
+                        ops.push(Op::Cmd(vec![b("CONFIG"), b("SET"), param, gen::pick(rng, &["allkeys-lru", "100mb", "yes", "noeviction", "0"])], Path::Generic))
+                    } else {
+                        ops.push(Op::Cmd(vec![b("CONFIG"), b("GET"), param], Path::Generic))
+                    }
+                }
+            }
             15 => {
                 if rng.gen_bool(0.3) {
                     ops.push(Op::Cmd(vec![b("FLUSHALL")], Path::Generic))
